@@ -264,6 +264,28 @@ def b_lookups(ctx):
         want = np.array([float(b.stress(0.3 * mx)), float(b.stress(-0.77 * mx)), 0.0, float(b.stress(mx))])
         if not np.array_equal(got, want):
             ctx.fail(f'C07:series:{lname}', f'Series look-up {got.tolist()} != scalar look-ups {want.tolist()}', {'law': lname, 'bins': nb, 'max': mx})
+        # Series look-ups of all four functions over every class (both signs, edges, mid-class, just above an edge, NaN, 0) == the scalar look-ups element by element
+        # (added after seed C07-c clamped the class index of the Series branch of strain_secondary_branch: only the first class was affected)
+        pr1 = [sg * x for sg in (1.0, -1.0) for x in probes] + [np.nan]
+        pr2 = [sg * x for sg in (1.0, -1.0) for x in [0.0] + list(edges2) + [float(e) - mx / nb / 2 for e in edges2] + [float(e) * (1 + 1e-9) for e in edges2[:-1]]] + [np.nan]
+        for fname, prs, second in (('stress', pr1, None), ('strain', pr1, 'stress'), ('stress_secondary_branch', pr2, None), ('strain_secondary_branch', pr2, 'stress_secondary_branch')):
+            ser = pd.Series(prs)
+            fn = getattr(b, fname)
+
+            def one(x):
+                if np.isnan(x):
+                    return 0.0
+                return float(fn(x)) if second is None else float(fn(float(getattr(b, second)(x)), x))
+            want = np.array([one(x) for x in prs])
+            try:
+                got = np.asarray(fn(ser) if second is None else fn(getattr(b, second)(ser), ser), dtype=float)
+            except Exception as e:   # noqa
+                ctx.fail(f'C07:series-raises:{fname}:{lname}', f'{fname}(Series) raises {type(e).__name__}: {e}', {'law': lname, 'bins': nb, 'max': mx})
+                continue
+            ctx.case(True, key=(lname, nb, mx, 'series', fname))
+            if not np.array_equal(got, want):
+                k_ = int(np.argmax(got != want))
+                ctx.fail(f'C07:series:{fname}:{lname}', f'{fname}(Series)[{k_}] = {got[k_]} for load {prs[k_]}, the scalar look-up gives {want[k_]} (n={nb}, max={mx})', {'law': lname, 'bins': nb, 'max': mx, 'load': prs[k_]})
         # per-point tables
         ratios = [1.0, 0.6, 1.5]
         mser = pd.Series([mx * r for r in ratios], index=pd.Index([3, 1, 7], name='node_id'))
